@@ -1085,6 +1085,18 @@ func mustSnap(dir string) map[string][]byte {
 
 var c03QuickMax = []int64{1, 2, 3, 5, 8, 13, 40}
 
+// gridOffset: on large logs (a few histories keep hundreds of messages in one segment) the offset
+// grids are sampled: both ends, every offset next to a hole, and a rotating ninth of the rest.
+func gridOffset(m *ref.Model, off int64, step int) bool {
+	if m.Next <= 150 || off < 8 || off > m.Next-8 {
+		return true
+	}
+	if off%9 == int64(step%9) {
+		return true
+	}
+	return !m.IsLive(off) || !m.IsLive(off-1) || !m.IsLive(off+1)
+}
+
 func (h *Hist) observeC03() {
 	m := h.model
 	lay := layoutOf(h.dir)
@@ -1096,6 +1108,9 @@ func (h *Hist) observeC03() {
 		}
 	}
 	for off := int64(-5); off <= m.Next+2; off++ {
+		if !gridOffset(m, off, len(h.ops)) {
+			continue
+		}
 		cls := offsetClass(m, lay, off)
 		for _, mx := range maxes {
 			h.cov.Add("evaluations", 1)
@@ -1173,6 +1188,9 @@ func (h *Hist) observeC09() {
 		}
 		if m.Cfg.Keys {
 			for off := int64(-2); off <= m.Next; off++ {
+				if !gridOffset(m, off, len(h.ops)) {
+					continue
+				}
 				h.cov.Add("evaluations", 1)
 				if _, _, f := consumeByKeyCell(h.log, m, k, off, 3); f != nil {
 					h.fail(f)
